@@ -291,8 +291,17 @@ async fn run_async(ctx: &mut Ctx, opts: Opts) {
                                 if !matches!(d.kind, PacketKind::WhoAreYou { .. }) {
                                     if let Some((_, pt)) = w.decrypt_with_log(&d, &w.nodes[*from].id) {
                                         if let Some(Message::Response(rs)) = decode_message(&pt) {
-                                            resp_delivered.entry((to, *from, rid_num(&rs.id))).or_insert(now_ms());
-                                            resp_nonce.insert((to, d.message_nonce), (to, *from, rid_num(&rs.id)));
+                                            // a node that is challenging the sender at this moment has (as a rule) no usable
+                                            // session with it and cannot read the response: such a delivery does not count as
+                                            // an answer (erring on this side only loosens the bounds derived from it)
+                                            let tmo = w.nodes[to].cfg.request_timeout_ms;
+                                            let challenging = challenges.get(&(to, src)).map(|v| v.iter().any(|(t, _)| *t + tmo + 2 >= now_ms())).unwrap_or(false);
+                                            if challenging {
+                                                ctx.count("responses_delivered_while_receiver_challenges_sender");
+                                            } else {
+                                                resp_delivered.entry((to, *from, rid_num(&rs.id))).or_insert(now_ms());
+                                                resp_nonce.insert((to, d.message_nonce), (to, *from, rid_num(&rs.id)));
+                                            }
                                         }
                                     }
                                 }
